@@ -130,7 +130,7 @@ def _established(reg, c):
 
 
 def load_known():
-    p = os.path.join(VERIF, 'known_findings.json')
+    p = os.environ.get('PAMQP_KNOWN_FINDINGS') or os.path.join(VERIF, 'known_findings.json')   # (override: self-test of this path only)
     if os.path.exists(p):
         with open(p) as fh:
             return json.load(fh)
